@@ -78,8 +78,8 @@ def check(run):
     lfailed = D.prove_lemmas(run, "make_changes: slice starts", c_spmd.lo_lemmas())
     if st3 == "proved" and D.canary(run, "generation/simplifier.py", "make_changes", c_spmd.make_changes_contract) is False:
         raise RuntimeError("canary verified: engine vacuous on make_changes")
-    np_list = [[0, 1], [1, 3], [5, 2], [7, 3], [10, 16], [23, 4]] if tier == "quick" else \
-        [[0, 1], [0, 3], [1, 3], [2, 5], [5, 2], [7, 3], [10, 16], [16, 16], [17, 16], [23, 4], [40, 7], [64, 5]]
+    np_list = [[0, 1], [1, 3], [5, 2], [6, 4], [7, 3], [10, 16], [14, 6], [23, 4]] if tier == "quick" else \
+        [[0, 1], [0, 3], [1, 3], [2, 5], [5, 2], [6, 4], [7, 3], [10, 16], [14, 6], [16, 16], [17, 16], [23, 4], [26, 8], [40, 7], [64, 5]]
     rm = run.harness("rt_merge.py", {"NP": np_list, "seeds": 2 if tier == "quick" else 4, "seed": run.seed}, timeout=1200)
     run.add_bounded("make_changes on P ranks: every rank ends with the concatenation of the local string lists; expressions and maps follow exactly where the string changed",
                     "simplifier.make_changes on the MPI stand-in", "(N, P) in %s, random changes" % np_list, rm["cases"], rm["distinct"], len(rm["failures"]))
